@@ -39,6 +39,12 @@ MIN_COUNTERS = {"quick": {"faults_injected": 5000, "refusals_state_compared": 50
 OWN = "C13"
 
 
+def _node_kind(c):
+    from nutree.typed_tree import TypedNode
+
+    return c.kind if isinstance(c, TypedNode) else None
+
+
 class InjectedFault(Exception):
     pass
 
@@ -82,10 +88,20 @@ def _content(d):
     return None
 
 
+def _forwarded(c):
+    """what `node.guid` answers (forward_attrs trees over O objects hand on the data's attribute; others raise)"""
+    if not isinstance(c.data, O):
+        return None
+    try:
+        return ("fwd", c.guid)
+    except AttributeError:
+        return ("no-forwarding",)
+
+
 def ident(t):
     def rec(h):
-        return [(id(c), id(c.data), c.data_id, getattr(c, "kind", None), dict(c.meta) if c.meta else None, id(c.parent), id(c.tree),
-                 _content(c.data), c.is_leaf(), rec(c))
+        return [(id(c), id(c.data), c.data_id, _node_kind(c), dict(c.meta) if c.meta else None, id(c.parent), id(c.tree),
+                 _content(c.data), c.is_leaf(), _forwarded(c), rec(c))
                 for c in h.children]
 
     return (t.count, rec(t))
@@ -115,7 +131,10 @@ def _build(case, *, calc=None, typed=False):
     rng = rng_for(case.get("seed", 0), "c13", case["f"], case["lab"])
     n = gen.size(f)
     cls = TypedTree if typed else Tree
-    t = cls("t", calc_data_id=calc) if calc else cls("t")
+    # trees over objects forward attribute access to their data (`node.guid`): that setting is part of the tree's observable
+    # state, too - a failed operation may not switch it off
+    fwd = {"forward_attrs": True} if case["lab"] == "obj" else {}
+    t = cls("t", calc_data_id=calc, **fwd) if calc else cls("t", **fwd)
     if case["lab"] == "dw":
         from nutree.common import DictWrapper
 
